@@ -147,6 +147,9 @@ pub fn exec_ops(w: &mut e57::E57Writer<Dev>, p: &Program) -> Result<(), String> 
     for op in &p.ops {
         match op {
             Op::Ext(a, b) => w.register_extension(e57::Extension::new(a, b)).map_err(es)?,
+            Op::ExtTry(a, b) => {
+                let _ = w.register_extension(e57::Extension::new(a, b));
+            }
             Op::Creation(c) => w.set_creation(c.as_ref().map(dt_to_e57)),
             Op::CoordMeta(c) => w.set_coordinate_metadata(c.clone()),
             Op::Blob(b) => {
